@@ -77,6 +77,11 @@ def judge(case):
                 v.append(core.viol("C01/depends_on_earlier_run/" + setup.kind, "the trace differs when the same Pervaporation/membrane objects modelled another run first",
                                    fresh=[tr["m"][:3], tr["J"][:2]], reused=[t3["m"][:3], t3["J"][:2]]))
         restarts += 1
+    # recycled caller objects: a decoy run, then every caller-owned object is set in place to this case (all 3-step runs and the longest ones)
+    if not v and setup.steps in (3, 12):
+        v5, n5 = traces.check_recycled(case, tr, "C01/depends_on_earlier_run/" + setup.kind)
+        v.extend(v5)
+        restarts += n5
     return core.result("returned", nontrivial=True, digest=traces.trace_digest(tr), viol=v, states=tr["n"] + restarts * 2,
                        transitions=max(tr["n"] - 1, 0) + restarts, traces=1 + restarts, restarts=restarts,
                        sample={"m": tr["m"][:3], "x": tr["x"][:3], "J": tr["J"][:2]})
